@@ -139,6 +139,9 @@ reg = {
         # insert beside a single huge pair: leaf order, checksums, separator bounds
         "bigpair": {"overlay": "units/bigpair.ovl", "canaries": ["canary_bigpair"],
                     "helpers": ["len", "to_vec", "to_owned", "into_owned", "branch_separator", "key", "new", "entry", "last_entry", "offset_of_first_value", "get_page_number", "memory", "push", "build", "fixed_width"]},
+        # the purge of freed-page records at a savepoint restore
+        "restore": {"overlay": "units/restore.ovl", "canaries": ["canary_restore"],
+                    "helpers": ["lock", "from", "next", "raw_id", "get_transaction_id", "extract_from_if", "close", "open_system_table"]},
         "types_sep": {"overlay": "units/types_sep.ovl", "canaries": ["canary_types_sep"], "helpers": ["common_prefix_len"]},
         # the page-level checksum walk over an abstract page store
         "merkle": {"overlay": "units/merkle.ovl", "canaries": ["canary_merkle"],
@@ -295,6 +298,7 @@ P["C06"] = {
                                               "InMemoryState::allocate_helper_retry", "TransactionalMemory::free_helper", "TransactionalMemory::free", "TransactionalMemory::free_if_unpersisted",
                                               "TransactionalMemory::claim_unpersisted", "PageAllocator::*", "Mutex::lock", "lemma_*"]},
               {"unit": "tabledel", "functions": ["TableTreeMut::delete_table_core"]},
+              {"unit": "restore", "functions": ["WriteTransaction::purge_freed_after"]},
               {"unit": "cow", "functions": ["MutateHelper::replace_branch_child", "MutateHelper::conditional_free", "MutateHelper::apply_subtree_result",
                                             "MutateHelper::rebuild_partial_leaf_child", "MutateHelper::finalize_branch_builder"]}],
     "kani": [K["C06-K1"], K["C06-K2"], alias("C10-F6a", "C06-K1b")],
@@ -306,10 +310,11 @@ P["C07"] = {
     "level": "proof",
     "kani": [K["C07-K1s"], K["C07-K1n"]],
     "verus": [{"unit": "txcommit", "functions": ["WriteTransaction::commit_inner_helper", "WriteTransaction::abort_inner", "Mutex::lock"]},
-              {"unit": "allocrec", "functions": ["WriteTransaction::write_allocation_records", "Mutex::lock"]}],
-    "assumptions": ["A1 (allocrec unit): DATA_ALLOCATED_TABLE is the log of (transaction, pages) records written to it (write_allocated_pages_entry appends one; its chunking into page lists is the bounded Kani harness C06-K2), the in-memory records are a sequence yielded in key order (rule R18)", "X1 (txcommit unit): every callee of commit_inner_helper appends its step to a ghost log and leaves the transaction's configuration alone; durable_commit applies the savepoint bookkeeping itself after its commit point; both commit callees leave the freed-page lists empty on success (what the final assertions of the real function check at run time); one-thread Mutex model"],
+              {"unit": "allocrec", "functions": ["WriteTransaction::write_allocation_records", "Mutex::lock"]},
+              {"unit": "restore", "functions": ["WriteTransaction::purge_freed_after"]}],
+    "assumptions": ["P1 (restore unit): DATA_FREED_TABLE is the set of its record keys ordered by (transaction id, pagination id) (codec order: complete Kani proof C15-F-txn_with_pagination); extract_from_if(lower.., keep everything) removes exactly the keys at or above `lower`; rule RX turns the closure `|_, _| true` into a unit value", "A1 (allocrec unit): DATA_ALLOCATED_TABLE is the log of (transaction, pages) records written to it (write_allocated_pages_entry appends one; its chunking into page lists is the bounded Kani harness C06-K2), the in-memory records are a sequence yielded in key order (rule R18)", "X1 (txcommit unit): every callee of commit_inner_helper appends its step to a ghost log and leaves the transaction's configuration alone; durable_commit applies the savepoint bookkeeping itself after its commit point; both commit callees leave the freed-page lists empty on success (what the final assertions of the real function check at run time); one-thread Mutex model"],
     "native": [dict(NATIVE["X-pins3"], id="C07-X-pins3"), dict(NATIVE["X-pins4"], id="C07-X-pins4"), dict(NATIVE["X-unp3"], id="C07-X-unp3"), dict(NATIVE["X-spstate"], id="C07-X-spstate")],
-    "explanation": "Kernel: (V) the REAL WriteTransaction::commit_inner_helper: an acknowledged commit has applied the savepoint bookkeeping (deleted savepoints released, restored-over ones invalidated) as its LAST step, after the durable or non-durable commit it depends on; after a savepoint restore the freed-page records of the rolled-back commits are dropped FIRST; a non-durable commit keeps its freed-page records in memory under its own id and adopts nothing, a durable one writes them out; (A) the REAL writing of the allocation records at a durable commit (fragment of flush_data_allocated_pages): the records earlier non-durable commits kept in memory are written out each under its OWN transaction id, in order, followed by this transaction's pages under this transaction's id - nothing else, nothing missing. (K) the persistent-savepoint record round trip (id, transaction id, user root) and its byte layout, for every id and every root header. BOUNDED (native): the savepoint bookkeeping of the real TransactionTracker - every registered savepoint holds exactly one pin on its transaction until it is deallocated, invalidation keeps the pins, oldest_savepoint_excluding / list_savepoints_after / any_*_savepoint_exists agree with the set of valid savepoints; the transaction-local SavepointTransactionState: a commit releases the pins of deleted savepoints and invalidates restored-over ones without touching their pins, an abort releases exactly the savepoints created in the transaction, both leave the local state empty.",
+    "explanation": "Kernel: (V) the REAL WriteTransaction::commit_inner_helper: an acknowledged commit has applied the savepoint bookkeeping (deleted savepoints released, restored-over ones invalidated) as its LAST step, after the durable or non-durable commit it depends on; after a savepoint restore the freed-page records of the rolled-back commits are dropped FIRST; a non-durable commit keeps its freed-page records in memory under its own id and adopts nothing, a durable one writes them out; (P) step 1a of the REAL restore_savepoint_inner: exactly the freed-page records of the transactions AFTER the savepoint's transaction are purged; those of the savepoint's own transaction (pages it freed that an older reader may still see) and of earlier ones stay; (A) the REAL writing of the allocation records at a durable commit (fragment of flush_data_allocated_pages): the records earlier non-durable commits kept in memory are written out each under its OWN transaction id, in order, followed by this transaction's pages under this transaction's id - nothing else, nothing missing. (K) the persistent-savepoint record round trip (id, transaction id, user root) and its byte layout, for every id and every root header. BOUNDED (native): the savepoint bookkeeping of the real TransactionTracker - every registered savepoint holds exactly one pin on its transaction until it is deallocated, invalidation keeps the pins, oldest_savepoint_excluding / list_savepoints_after / any_*_savepoint_exists agree with the set of valid savepoints; the transaction-local SavepointTransactionState: a commit releases the pins of deleted savepoints and invalidates restored-over ones without touching their pins, an abort releases exactly the savepoints created in the transaction, both leave the local state empty.",
     "not_decided": "restore semantics (restore_savepoint_inner), histories, crash; malformed-record error returns; the tracker and the unpersisted allocation records beyond the stated call-sequence bound",
 }
 P["C09"] = {
